@@ -313,6 +313,9 @@ def stack_component_rules(prog, chk, pid, tier):
 
 
 def run(prog, chk, tier):
+    from rules import state as _state
+
+    _state.library_state_rules(prog, chk, "C06")
     chk.explanation = ("get_raw_data's encryption arm must return create_AES128(session_key).encrypt(pad(self.blob)) and the blob may reach the stored bytes only through "
                        "that call; set_config builds its component flagged for encryption with the documented tags; the reader's ENC comparison is type consistent and equal "
                        "to the writer's encoding (otherwise ciphertext is handed back); with no cipher registered the arm has no normal exit and no handler on the write path "
